@@ -282,6 +282,9 @@ def run(pid, tier, seed):
         kept_text(chk, pd, seed)
         from .. import keptmix
         keptmix.run(chk, pd, seed, "kept-and-traced")
+        # whole functions: the real get_updated_definition / shrink_traced_types against Model/FuncDef.lean
+        from .. import funcdef_corr
+        funcdef_corr.run(chk, drv, tbl, pd, seed, "corr.C13", 150 if quick else 3000)
         chk.sample({"annotations": ANNOS, "return_combinations": RET_COMBOS, "strategies": [s for s, _ in strategies]})
     finally:
         pd.close()
